@@ -37,7 +37,8 @@ class BddMachine(Machine):
     def __init__(self, names, max_handles=3, max_ext=2, ops=('and', 'xor'),
                  with_ite=True, with_foa=True, with_reorder=True,
                  seeds=('fresh', 'used', 'swapped'), with_refops=True,
-                 with_collect=True, with_swap=True, with_let=False, with_quant=False):
+                 with_collect=True, with_swap=True, with_let=False, with_quant=False,
+                 with_sort=False):
         self.names = tuple(names)
         self.U = Universe(self.names)
         self.max_handles = max_handles
@@ -51,6 +52,7 @@ class BddMachine(Machine):
         self.with_swap = with_swap
         self.with_let = with_let
         self.with_quant = with_quant
+        self.with_sort = with_sort
         self._seeds = tuple(seeds)
 
     # ------------------------------------------------------------ seeds
@@ -151,6 +153,16 @@ class BddMachine(Machine):
                 acts.append(('swap', l))
         if self.with_reorder:
             acts.append(('reorder',))
+        if self.with_sort:
+            import itertools
+            n = len(self.names)
+            for p in itertools.permutations(range(n)):
+                if list(p) != sorted(p):
+                    acts.append(('sort',) + p)
+            for i in range(n):
+                for j in range(n):
+                    if i != j:
+                        acts.append(('topairs', i, j))
         if self.with_foa and room:
             for l in range(len(self.names)):
                 for i in idx:
@@ -264,6 +276,19 @@ class BddMachine(Machine):
             if check and len(m) > n0:
                 raise Violation('sifting ended with more nodes than it started with',
                                 before=n0, after=len(m))
+        elif kind == 'sort':
+            # a[1:] = permutation applied to the CURRENT order
+            cur = sorted(m.vars, key=m.vars.get)
+            target = {cur[k]: a[1 + k] for k in range(len(cur))}
+            _bdd.reorder(m, target)
+            if check and dict(m.vars) != target:
+                raise Violation('the requested order does not hold after reorder(order)')
+        elif kind == 'topairs':
+            cur = sorted(m.vars, key=m.vars.get)
+            x, y = cur[a[1]], cur[a[2]]
+            _bdd.reorder_to_pairs(m, {x: y})
+            if check and abs(m.vars[x] - m.vars[y]) != 1:
+                raise Violation('a requested pair is not adjacent after reorder_to_pairs')
         elif kind == 'foa':
             _, l, i, j = a
             u, v = h[i][0], h[j][0]
